@@ -3,7 +3,7 @@
    declared size in {none, correct}, flavour, and every tree satisfying the cache shape invariant.  [hash] is any
    function with digests of at least two bytes.  [wf_rec] = the codec handles the written record faithfully
    (C11). *)
-From CC Require Import Bytes Codec Utf8 Lines Json Sri Record Fs Prog Api BytesP CodecP FsP ProgP SriP RecordP IndexP ReadP WriteP CommitP.
+From CC Require Import Bytes Codec Utf8 Lines Json Sri Record Fs Prog Api BytesP CodecP FsP ProgP SriP RecordP IndexP ReadP WriteP CommitP JsonP RecCodecP MetaP.
 
 Section C02.
 Variable hash : algo -> bytes -> bytes.
@@ -61,6 +61,35 @@ Theorem C02_write_hash f fl a data :
   (forall k, abs_idx hash f' k = abs_idx hash f k).
 Proof. exact (write_hash_roundtrip hash HL f fl a data). Qed.
 
+(* the round trip with the codec hypothesis discharged (C11): decidable conditions on the caller's arguments only *)
+Theorem C02_streamed_keyed_closed f fl key o cs now :
+  CacheInv f -> o_sri o = None -> size_ok o (lenN (List.concat cs)) = true ->
+  let data := List.concat cs in let a := algo_of o in
+  opts_ok key (commit_opts o (sri_of hash a data) (lenN data)) now = true ->
+  let f' := snd (run (stream_write hash fl (Some key) o cs now) f) in
+  fst (run (stream_write hash fl (Some key) o cs now) f) = Ok (sri_of hash a data) /\
+  CacheInv f' /\
+  run (read hash key) f' = (Ok data, f') /\
+  run (read_hash hash (sri_of hash a data)) f' = (Ok data, f') /\
+  (forall k, k <> key -> abs_idx hash f' k = abs_idx hash f k).
+Proof.
+  intros Hi Hs Hz data a Hok f'.
+  destruct (stream_write_keyed_roundtrip hash HL f fl key o cs now Hi Hs Hz (opts_ok_wf_rec hash key _ now Hok)) as [H1 [H2 [H3 [H4 [H5 _]]]]].
+  auto.
+Qed.
+
+Theorem C02_write_closed f fl a key data now :
+  CacheInv f ->
+  opts_ok key (commit_opts (write_opts fl a data) (sri_of hash a data) (lenN data)) now = true ->
+  let f' := snd (run (write hash fl a key data now) f) in
+  fst (run (write hash fl a key data now) f) = Ok (sri_of hash a data) /\
+  CacheInv f' /\
+  run (read hash key) f' = (Ok data, f') /\
+  run (read_hash hash (sri_of hash a data)) f' = (Ok data, f').
+Proof.
+  intros Hi Hok f'. destruct (write_roundtrip hash HL f fl a key data now Hi (opts_ok_wf_rec hash key _ now Hok)) as [H1 [H2 [H3 [H4 _]]]]. auto.
+Qed.
+
 End C02.
 
 (* non-vacuity: the empty tree satisfies the invariant; the model run shows the conclusion on a concrete case
@@ -77,6 +106,8 @@ Example C02_example :
 Proof. vm_compute. split; reflexivity. Qed.
 
 Print Assumptions C02_streamed_keyed.
+Print Assumptions C02_streamed_keyed_closed.
+Print Assumptions C02_write_closed.
 Print Assumptions C02_streamed_by_hash.
 Print Assumptions C02_write.
 Print Assumptions C02_write_hash.
